@@ -2,38 +2,45 @@
    Only statements closed by [exact]; proofs live in GraphTheorems.v. *)
 From Fences Require Import GraphSpec GraphLinks GraphExec GraphAnalysis GraphTheorems GraphCheck.
 
-(* Full statement, for the code after the fix commits (variant V_fixed), for every consistently
+(* Full statement, for the code after the fix commits (variant V_fixed), whatever annotations
+   earlier generate_paths() calls left behind (lr0, lv0), for every consistently
    linked graph -- in particular for every graph the public API can build (C03_label_built). *)
-Theorem C03_label : forall g root fuel lr0 a es st e,
+Theorem C03_label : forall g root fuel lr0 lv0 a es st e,
   wf g root ->
-  generate_paths V_fixed fuel g root lr0 aempty = Ok (a, (es, st)) -> In e es ->
+  generate_paths V_fixed fuel g root lr0 lv0 = Ok (a, (es, st)) -> In e es ->
   exists tr, exec fuel g root (epath e) = Ok (tr, []) /\
              (evalid e = true <-> invalid_leaves g tr = []).
-Proof. intros g root fuel lr0 a es st e W GP. exact (label_agrees V_fixed g root W fuel lr0 a es st GP eq_refl e). Qed.
+Proof.
+  intros g root fuel lr0 lv0 a es st e W GP.
+  exact (label_agrees V_fixed g root W fuel lr0 lv0 a es st (or_introl eq_refl) GP eq_refl e).
+Qed.
 Print Assumptions C03_label.
 
-Theorem C03_one_fault : forall g root fuel lr0 a es st e,
+Theorem C03_one_fault : forall g root fuel lr0 lv0 a es st e,
   wf g root ->
-  generate_paths V_fixed fuel g root lr0 aempty = Ok (a, (es, st)) -> In e es ->
+  generate_paths V_fixed fuel g root lr0 lv0 = Ok (a, (es, st)) -> In e es ->
   exists tr bp l, exec fuel g root (epath e) = Ok (tr, []) /\
     spine g root bp l (etarget e) /\
     (sibs_VC g root bp -> forall x, In x (invalid_leaves g tr) -> x = etarget e).
-Proof. intros g root fuel lr0 a es st e W GP. exact (one_fault V_fixed g root W fuel lr0 a es st GP e). Qed.
+Proof.
+  intros g root fuel lr0 lv0 a es st e W GP.
+  exact (one_fault V_fixed g root W fuel lr0 lv0 a es st (or_introl eq_refl) GP e).
+Qed.
 Print Assumptions C03_one_fault.
 
 (* every graph built with the public API is consistently linked, so for built graphs the
    well-formedness premise reduces to what the quantifier of C03 says *)
-Theorem C03_label_built : forall ops root fuel lr0 a es st e,
+Theorem C03_label_built : forall ops root fuel lr0 lv0 a es st e,
   let g := build ops in
   norefs g -> nonempty_decs g -> (forall n, n < length g -> reach g root n) ->
   root < length g -> ins_of g root = [] ->
-  generate_paths V_fixed fuel g root lr0 aempty = Ok (a, (es, st)) -> In e es ->
+  generate_paths V_fixed fuel g root lr0 lv0 = Ok (a, (es, st)) -> In e es ->
   exists tr, exec fuel g root (epath e) = Ok (tr, []) /\
              (evalid e = true <-> invalid_leaves g tr = []).
 Proof.
-  intros ops root fuel lr0 a es st e g NR NE RE RI R0 GP.
+  intros ops root fuel lr0 lv0 a es st e g NR NE RE RI R0 GP.
   exact (label_agrees V_fixed g root (mkWf g root (build_consistent ops) NR NE RE RI R0)
-                      fuel lr0 a es st GP eq_refl e).
+                      fuel lr0 lv0 a es st (or_introl eq_refl) GP eq_refl e).
 Qed.
 Print Assumptions C03_label_built.
 
